@@ -313,6 +313,7 @@ func c14Run(c *Ctx) {
 		pre + Lines(Print(`p("a", nil) || p("b", 0) || p("c", "") || p("d", 3) || p("e", 4)`), Print(`p("a", 1) && p("b", "x") && p("c", 0) && p("d", 4)`)),
 		pre + Lines(Var("o2", `{z: p("z", 1), a: p("a", 2), m: p("m", 3), b: p("b", 4), y: p("y", 5), c: p("c", 6)}`), Print("o2.z + o2.c")),
 		// recursion through a later argument of a call that has already completed once
+ 		pre + Lines(K["var"]+` a = p("A", 5), b;`, Print("b"), Var("n", "0"), K["var"]+" cc = (n = n + 1), d, e;", Print("[n, d, e]"), For(K["var"]+` i = p("I", 0), lim;`, "i < 1", "i = i + 1", "{ "+Print("lim")+" }"), K["var"]+` u, w = p("W", 1), x2 = p("X", 2), y;`, Print("[u, w, x2, y]")),
 		pre + Lines(Fun("chain", "n", " "+If("n == 0", Ret(`"end"`))+" "+Ret(`p("L" + n, chain(n - 1))`)+" "), Print("chain(3)"), Print("chain(3)"), Print("chain(2)")),
 		pre + Lines(Fun("join", "a, b", " "+Ret(`a + "" + b`)+" "), Fun("tree", "lo, hi", " "+If("hi - lo == 1", Ret(`"" + lo`))+" "+Var("mid", "(lo + hi) / 2")+" "+Ret("join(tree(lo, mid), tree(mid, hi))")+" "), Print("tree(0, 4)"), Print("tree(0, 8)"), Print("tree(0, 8)")),
 		pre + Lines(Fun("sum3", "a, b, c", " "+Ret("a * 100 + b * 10 + c")+" "), Fun("down", "n", " "+If("n == 0", Ret("0"))+" "+Ret(`sum3(p("a" + n, n), down(n - 1) % 10, p("c" + n, n))`)+" "), Print("down(2)"), Print("down(3)"), Print("down(3)")),
